@@ -47,6 +47,10 @@ struct Spans {
     elems: Vec<(usize, usize)>,
     /// number of entity / character references seen
     refs: usize,
+    /// (name start, value start, value end) of every attribute: the value between the quotes
+    values: Vec<(usize, usize, usize)>,
+    /// (start, end) of every run of character data / references that is not only white space
+    texts: Vec<(usize, usize)>,
 }
 
 struct Wf<'a> { b: &'a [u8], p: usize, sp: Spans, scopes: Vec<Vec<Vec<u8>>> }
@@ -195,6 +199,7 @@ impl<'a> Wf<'a> {
                 scope.push(p.to_vec());
             }
             self.sp.attrs.push((astart, self.p));
+            self.sp.values.push((astart + ws, vstart, vend));
         }
         self.scopes.push(scope);
         for n in std::iter::once(&name).chain(attr_names.iter()) {
@@ -206,8 +211,12 @@ impl<'a> Wf<'a> {
             }
         }
         if !empty {
+            let mut run: Option<usize> = None;
             loop {
                 if self.p >= self.b.len() { return Err(format!("element {:?} is never closed", String::from_utf8_lossy(name))) }
+                if self.starts(b"<") {
+                    if let Some(s) = run.take() { if self.b[s..self.p].iter().any(|c| !is_ws(*c)) { self.sp.texts.push((s, self.p)) } }
+                } else if run.is_none() { run = Some(self.p) }
                 if self.starts(b"</") {
                     self.p += 2;
                     let n = self.name()?;
@@ -2245,6 +2254,162 @@ fn space_grammar(ctx: &Ctx, fx: &Fx) {
     sp.done(true, &format!("{} contexts, all sequences of <= 3 children", ctxts.len()));
 }
 
+//============ Parsers and value constructors on every value shape ===========
+//
+// Every attribute value and every text content of one valid document per
+// message type is replaced, one at a time, by a menu of values: the original
+// cut at every length, prefixes of the schemes / keywords the value types
+// look for, unit patterns of every length 0..=40 (ASCII, white space, and
+// multi-octet characters placed so that every byte offset 0..=40 falls inside
+// a character once), and hostile values. The same strings go straight into
+// the public FromStr / TryFrom / from_* / Deserialize constructors.
+
+fn unescape_xml(s: &str) -> String {
+    s.replace("&lt;", "<").replace("&gt;", ">").replace("&quot;", "\"").replace("&apos;", "'").replace("&amp;", "&")
+}
+
+fn escape_xml(s: &str) -> String {
+    s.replace('&', "&amp;").replace('<', "&lt;").replace('>', "&gt;").replace('"', "&quot;").replace('\'', "&apos;")
+}
+
+const KEYWORDS: &[&str] = &["http://", "https://", "rsync://", "HTTP://", "Https://", "list_response", "error_response", "query", "reply", "xml_error",
+    "no_object_matching_hash", "AS", "2030-01-02T03:04:05Z", "10.0.0.0/8", "2001:db8::/32"];
+
+const HOSTILE: &[&str] = &["", " ", "\t", "\n", "\r\n", "  a  ", "&amp;", "]]>", "<!--", "%00", "../..", "/", "//", "://", ":", "-", "--", "=", "==", "====", "A", "AB=", "QUJD=", "Q U J D",
+    "0", "-1", "+1", " 1", "1 ", "01", "1e9", "0x10", "NaN", "4294967295", "4294967296", "18446744073709551615", "18446744073709551616", "99999999999999999999999999999999999999999",
+    "AS", "AS-", "AS1-", "-AS1", "1-2-3", "AS4294967296", "AS5-AS3", "AS1,,AS2", ",", "10.0.0.0/33", "10.0.0.0/", "/8", "10.0.0.0/-1", "1.2.3", "1.2.3.4.5", "256.0.0.0/8", "10.0.0.9-10.0.0.1",
+    "::/129", "::-", "::1::2", ":::", "2001:db8::/", "1.2.3.4/8, ::/0", "::ffff:1.2.3.4",
+    "2030-02-30T00:00:00Z", "9999-12-31T23:59:60Z", "2030-01-02T03:04:05", "2030-01-02", "+10000-01-01T00:00:00Z", "-0001-01-01T00:00:00Z", "0000-00-00T00:00:00Z", "2030-01-02T03:04:05+24:00", "2030-01-02T03:04:05.9999999999999Z",
+    "http", "http:/", "http://", "https://", "rsync://", "rsync://h", "rsync://h/", "rsync://h/m", "rsync://h//", "rsync://h/m/../x", "https:///", "ftp://h/x", "HTTP://", "hTTp:/", "http:\\\\h",
+    "zz", "0g", "abcdef", "list", "LIST", "list_response ", "other_error\u{0}"];
+
+/// The menu for one original value. Deterministic, duplicates removed, order kept.
+fn value_menu(orig: &str) -> Vec<String> {
+    let mut v: Vec<String> = Vec::new();
+    let t = orig.trim();
+    // (a) the original cut at every length (all lengths up to 200, then the neighbourhoods of powers of two and the last three)
+    let cuts: Vec<usize> = (0..=t.len()).filter(|n| *n <= 200 || t.len() - n <= 3 || (n + 1).is_power_of_two() || n.is_power_of_two() || (n - 1).is_power_of_two()).collect();
+    for n in &cuts { if t.is_char_boundary(*n) { v.push(t[..*n].to_string()); v.push(t[t.len() - n..].to_string()) } }
+    for k in KEYWORDS { for n in 0..=k.len() { v.push(k[..n].to_string()) } }
+    // keyword prefix glued to the tail of the original (scheme cut short, rest intact)
+    if let Some(i) = t.find("://") { for n in 0..=i + 3 { v.push(format!("{}{}", &t[..n], &t[i + 3..])) } }
+    // (a) unit patterns of every length 0..=40
+    for n in 0..=40usize {
+        v.push("a".repeat(n)); v.push(" ".repeat(n)); v.push("/".repeat(n)); v.push("0".repeat(n)); v.push("=".repeat(n)); v.push(":".repeat(n));
+        // a 2-, 3- and 4-octet character starting at byte offset n-1 .. so that offset n falls inside it
+        for c in ["\u{e9}", "\u{20ac}", "\u{1F600}"] { v.push(format!("{}{c}{}", "a".repeat(n), "b".repeat(3))); if n < c.len() { v.push(c.repeat(8)) } }
+        v.push(format!("{}{}", " ".repeat(n), t)); v.push(format!("{}{}", t, " ".repeat(n)));
+    }
+    // (b) hostile values, alone and appended to the original
+    for h in HOSTILE { v.push(h.to_string()); v.push(format!("{t}{h}")); v.push(format!("{h}{t}")) }
+    v.push("a".repeat(10_000)); v.push(format!("{t}{}", "a".repeat(70_000))); v.push("\u{e9}".repeat(5_000));
+    let mut seen = HashSet::new();
+    v.retain(|s| seen.insert(s.clone()));
+    v
+}
+
+fn xml_legal(s: &str) -> bool { s.chars().all(|c| c == '\t' || c == '\n' || c == '\r' || (c >= ' ' && c != '\u{FFFE}' && c != '\u{FFFF}')) }
+
+fn show_value(s: &str) -> String { if s.len() <= 60 { format!("{s:?}") } else { format!("{:?}..[{} octets, fnv{:016x}]", trunc(s, 40), s.len(), fnv64(s.as_bytes())) } }
+
+/// The public constructors of the value types the three protocols interpret, on one string.
+fn constructors(s: &str) -> Vec<(&'static str, Result<Option<bool>, String>)> {
+    // Ok(Some(b)): accepted, b = the value's own text form parses back to an equal value (None where not applicable)
+    macro_rules! ctor { ($name:expr, $e:expr) => { ($name, guard(|| $e)) } }
+    fn rt<T: PartialEq + std::fmt::Display, E>(v: Result<T, E>, back: impl Fn(&str) -> Result<T, E>) -> Option<bool> { v.ok().map(|v| back(&v.to_string()).ok().is_some_and(|w| w == v)) }
+    let owned = s.to_string();
+    let json = serde_json::Value::String(owned.clone());
+    vec![
+        ctor!("ServiceUri::from_str", rt(idx::ServiceUri::from_str(s), idx::ServiceUri::from_str)),
+        ctor!("ServiceUri::try_from(String)", rt(idx::ServiceUri::try_from(owned.clone()), idx::ServiceUri::from_str)),
+        ctor!("ServiceUri::deserialize", serde_json::from_value::<idx::ServiceUri>(json.clone()).ok().map(|v| idx::ServiceUri::from_str(v.as_str()).ok().is_some_and(|w| w == v))),
+        ctor!("Handle::from_str", rt(idx::Handle::<idx::Myself>::from_str(s), idx::Handle::<idx::Myself>::from_str)),
+        ctor!("Handle::try_from(String)", rt(idx::Handle::<idx::Child>::try_from(owned.clone()), idx::Handle::<idx::Child>::from_str)),
+        ctor!("Handle::try_from(&PathBuf)", idx::Handle::<idx::Parent>::try_from(&std::path::PathBuf::from(s)).ok().map(|h| idx::Handle::<idx::Parent>::try_from(&h.to_path_buf()).ok().is_some_and(|w| w == h))),
+        ctor!("Handle::deserialize", serde_json::from_value::<idx::Handle<idx::Publisher>>(json.clone()).ok().map(|v| idx::Handle::<idx::Publisher>::from_str(v.as_str()).ok().is_some_and(|w| w == v))),
+        ctor!("ResourceClassName::from_str", prov::ResourceClassName::from_str(s).ok().map(|v| prov::ResourceClassName::from(v.to_string()) == v && v.as_ref() == s)),
+        ctor!("ResourceClassName::deserialize", serde_json::from_value::<prov::ResourceClassName>(json.clone()).ok().map(|v| v == prov::ResourceClassName::from(s))),
+        ctor!("PayloadType::from_str", prov::PayloadType::from_str(s).ok().map(|v| v.as_ref() == s && v.to_string() == s)),
+        ctor!("ReportErrorCode::from_str", rt(publ::ReportErrorCode::from_str(s), publ::ReportErrorCode::from_str)),
+        ctor!("Base64::deserialize", serde_json::from_value::<Base64>(json.clone()).ok().map(|v| v.as_str() == s)),
+        ctor!("RequestResourceLimit::deserialize", { let _ = serde_json::from_value::<prov::RequestResourceLimit>(serde_json::json!({"asn": s, "v4": s, "v6": s})); None }),
+        ctor!("uri::Rsync::from_str", rt(uri::Rsync::from_str(s), uri::Rsync::from_str)),
+        ctor!("uri::Https::from_str", rt(uri::Https::from_str(s), uri::Https::from_str)),
+        ctor!("rrdp::Hash::from_str", rt(Hash::from_str(s), Hash::from_str)),
+        ctor!("KeyIdentifier::from_str", rt(KeyIdentifier::from_str(s), KeyIdentifier::from_str)),
+        // resource sets and times: other properties own their laws, here only "no panic"
+        ctor!("AsBlocks::from_str", { let _ = AsBlocks::from_str(s).map(|b| b.to_string()); None }),
+        ctor!("Ipv4Blocks::from_str", { let _ = Ipv4Blocks::from_str(s).map(|b| b.to_string()); None }),
+        ctor!("Ipv6Blocks::from_str", { let _ = Ipv6Blocks::from_str(s).map(|b| b.to_string()); None }),
+        ctor!("ResourceSet::from_strs", { let _ = ResourceSet::from_strs(s, s, s).map(|b| b.to_string()); None }),
+        ctor!("Time::from_str", { let _ = Time::from_str(s).map(|t| t.to_rfc3339()); None }),
+        ctor!("base64::Xml::decode", { let _ = rpki::util::base64::Xml.decode(s); let _ = rpki::util::base64::Slurm.decode(s); None }),
+    ]
+}
+
+fn space_values(ctx: &Ctx, fx: &Fx) {
+    let docs = seed_documents(fx);
+    let sp = ctx.space("parse.values",
+        "one valid document per message type (17); every attribute value and every text content replaced, one at a time, by each value of a menu: the original cut at every length from both ends, every prefix of the schemes / keywords the value types look for, the scheme cut short in front of the intact rest, unit patterns of every length 0..=40 (a, blank, /, 0, =, :), a 2-, 3- and 4-octet character at every byte offset 0..=40, leading / trailing blanks, hostile values alone and glued to the original, 10 000 / 70 000 octets; the parser must not panic and an accepted message must be written and parsed back equal; non-trivial = replacement values that differ from the original");
+    let fails = Fails(Mutex::new(Vec::new()));
+    let all_values: Mutex<HashSet<String>> = Mutex::new(HashSet::new());
+    let mut nspans = 0usize;
+    for (name, p, d) in &docs {
+        let Ok(spans) = wf_check(d) else { continue };   // reported by parse.deviations
+        let text = String::from_utf8_lossy(d).into_owned();
+        let mut targets: Vec<(String, usize, usize)> = Vec::new();
+        for (k, (ns, vs, ve)) in spans.values.iter().enumerate() {
+            let an = text[*ns..].split(['=', ' ']).next().unwrap_or("").to_string();
+            targets.push((format!("attr#{k}:{an}"), *vs, *ve));
+        }
+        for (k, (a, b)) in spans.texts.iter().enumerate() { targets.push((format!("text#{k}@{a}"), *a, *b)) }
+        nspans += targets.len();
+        targets.par_iter().for_each(|(what, a, b)| {
+            let orig = unescape_xml(&text[*a..*b]);
+            let menu = value_menu(&orig);
+            let mut l = PLocal { evals: 0, out: BTreeMap::new(), notrt: Vec::new(), fails: Vec::new() };
+            let mut nt = 0u64;
+            for v in &menu {
+                if !xml_legal(v) { continue }
+                if *v != orig { nt += 1 }
+                let doc = format!("{}{}{}", &text[..*a], escape_xml(v), &text[*b..]);
+                parse_case_j(*p, doc.as_bytes(), &mut l, &|| format!("doc={name} {what} := {}", show_value(v)), true);
+            }
+            fails.take(ctx, &mut l);
+            sp.evals(l.evals); sp.nontrivial(nt); sp.merge_outcomes(&l.out);
+            all_values.lock().unwrap().extend(menu);
+        });
+    }
+    fails.report(ctx);
+    sp.set("value_positions", serde_json::json!(nspans));
+    sp.sample_str(|| format!("menu for \"http://h/x\": {} values, e.g. {:?}", value_menu("http://h/x").len(), &value_menu("http://h/x")[..12]));
+    sp.done(true, "every attribute value and text content of 17 documents x the whole menu");
+
+    let sp = ctx.space("values.constructors",
+        "every distinct string of the parse.values menus (plus the strings holding characters XML cannot carry) straight into the public constructors of the value types: ServiceUri (FromStr, TryFrom<String>, Deserialize), Handle (FromStr, TryFrom<String>, TryFrom<&PathBuf>, Deserialize), ResourceClassName, PayloadType, ReportErrorCode, Base64 and RequestResourceLimit (Deserialize), uri::Rsync, uri::Https, rrdp::Hash, KeyIdentifier, AsBlocks / Ipv4Blocks / Ipv6Blocks / ResourceSet, Time, the two base64 decoders; no constructor may panic, and an accepted ServiceUri / Handle / class name / payload type / error code / URI / hash / key identifier must parse back from its own text form as an equal value; non-trivial = all (every string is distinct)");
+    let mut values: Vec<String> = all_values.into_inner().unwrap().into_iter().collect();
+    values.extend(["\u{0}".to_string(), "http:/\u{0}".to_string(), "http://\u{0}".to_string(), "a\u{1}b".to_string(), "\u{7f}".to_string(), "\u{FFFE}".to_string()]);
+    values.sort(); values.dedup();
+    let fails = Fails(Mutex::new(Vec::new()));
+    values.par_chunks(64).for_each(|chunk| {
+        let mut l = PLocal { evals: 0, out: BTreeMap::new(), notrt: Vec::new(), fails: Vec::new() };
+        for s in chunk { for (name, r) in constructors(s) {
+            l.evals += 1;
+            match r {
+                Err(p) => { *l.out.entry("PANIC").or_insert(0) += 1; l.fails.push((format!("C11.values.nopanic.{name}"), format!("{name}({})", show_value(s)), p)) }
+                Ok(Some(false)) => { *l.out.entry("accepted-TEXT-FORM-DIFFERS").or_insert(0) += 1; l.fails.push((format!("C11.values.textform.{name}"), format!("{name}({})", show_value(s)), "the accepted value does not parse back from its own text form as an equal value".into())) }
+                Ok(Some(true)) => *l.out.entry("accepted").or_insert(0) += 1,
+                Ok(None) => *l.out.entry("rejected-or-unjudged").or_insert(0) += 1,
+            }
+        }}
+        fails.take(ctx, &mut l);
+        sp.evals(l.evals); sp.nontrivial(l.evals); sp.merge_outcomes(&l.out);
+    });
+    fails.report(ctx);
+    sp.set("strings", serde_json::json!(values.len()));
+    sp.done(true, "all menu strings x 23 constructors");
+}
+
 fn space_parsers(ctx: &Ctx, fx: &Fx) {
     let docs = seed_documents(fx);
     let sp = ctx.space("parse.deviations",
@@ -2366,6 +2531,7 @@ fn main() {
     space_scale(&ctx, &fx); lap("scale");
     space_seeds(&ctx, &fx); lap("seeds");
     space_grammar(&ctx, &fx); lap("grammar");
+    space_values(&ctx, &fx); lap("values");
     space_parsers(&ctx, &fx); lap("parsers");
     ctx.assume(&format!("a Trace-level logger formatting every record was installed: {} of the library's log statements ran", if LOG_RECORDS.load(std::sync::atomic::Ordering::Relaxed) > 0 { "some" } else { "none" }));
     ctx.finish();
